@@ -43,6 +43,11 @@ def runNlistC03 (S : Sys) (cutoff : Rat) (init delta : Nat) (tol : Rat) : Except
   .ok (s!"{st.maxn} {showBool (nearCutoff tbl cutoff tol)} {showBool (nearEdge S G tol)} {cs.length} {es.length} "
     ++ s!"{maxbin} {bt.maxapb} " ++ showRowsC03 (absRows st.rows))
 
+/-- a storage size on the wire: a number, `-` = left out in a call through `NeighborList(...)` / `System.neighborlist(...)`,
+    `~` = left out in a direct call of `nlist`. -/
+def readSizeC03 (t : String) : Option SizeArg :=
+  if t == "-" then some .viaBuild else if t == "~" then some .viaNlist else t.toNat?.map .given
+
 def readPosC03 (n : Nat) (xs : List Rat) : List (V3 Rat) :=
   (List.range n).map fun k => (⟨xs.getD (3 * k) 0, xs.getD (3 * k + 1) 0, xs.getD (3 * k + 2) 0⟩ : V3 Rat)
 
@@ -76,10 +81,10 @@ partial def runSeqC03 (S : Sys) (tol : Rat) (toks : List String) (acc : List Str
     | some px, some py, some pz => runSeqC03 (applyOp S (.setPbc px py pz)) tol rest acc
     | _, _, _ => .error "format"
   | "Q" :: cutoff :: init :: delta :: rest =>
-    match parseRat? cutoff, init.toNat?, delta.toNat? with
+    match parseRat? cutoff, readSizeC03 init, readSizeC03 delta with
     | some cutoff, some init, some delta =>
       let S' := applyOp S (.query cutoff)
-      match runNlistC03 S' cutoff init delta tol with
+      match runNlistC03 S' cutoff (initialsizeOf init) (deltasizeOf delta) tol with
       | .ok r => runSeqC03 S' tol rest (s!"| {S'.natoms} {r}" :: acc)
       | .error e => runSeqC03 S' tol rest (s!"| err:{e}" :: acc)
     | _, _, _ => .error "format"
@@ -88,14 +93,14 @@ partial def runSeqC03 (S : Sys) (tol : Rat) (toks : List String) (acc : List Str
 def handleC03 (toks : List String) : String :=
   match toks with
   | "nlist" :: px :: py :: pz :: cutoff :: init :: delta :: tol :: rest =>
-    match parseBool? px, parseBool? py, parseBool? pz, parseRat? cutoff, init.toNat?, delta.toNat?,
+    match parseBool? px, parseBool? py, parseBool? pz, parseRat? cutoff, readSizeC03 init, readSizeC03 delta,
           parseRat? tol with
     | some px, some py, some pz, some cutoff, some init, some delta, some tol =>
       match parseRats? (rest.take 12), (rest.drop 12).head?.bind String.toNat?, parseRats? (rest.drop 13) with
       | some [a, b, c, d, e, f, g, h, i, ox, oy, oz], some n, some xs =>
         if xs.length ≠ 3 * n then err "format" else
         let S : Sys := ⟨⟨⟨a, b, c⟩, ⟨d, e, f⟩, ⟨g, h, i⟩⟩, ⟨ox, oy, oz⟩, px, py, pz, readPosC03 n xs⟩
-        match runNlistC03 S cutoff init delta tol with
+        match runNlistC03 S cutoff (initialsizeOf init) (deltasizeOf delta) tol with
         | .ok r => "ok " ++ r
         | .error e => err e
       | _, _, _ => err "format"
